@@ -2118,8 +2118,9 @@ double BW_MidiSequencer::Tick(double s, double granularity)
     {
         if(!processEvents())
             break;
-        if(m_currentPosition.wait <= 0.0)
-            antiFreezeCounter--;
+        // Rows closer than half of granularity also count: a looped section shorter than
+        // that would otherwise keep this loop running forever
+        antiFreezeCounter--;
     }
 
     if(antiFreezeCounter <= 0)
